@@ -13,6 +13,7 @@ import QModel.Serialize
 import QModel.Eval
 import QModel.NFCheck
 import QModel.Emulated
+import QModel.Blockwise
 open Lean Num Nd Arith Cfg Graph Mat
 
 /-! JSON-lines driver: one request per line on stdin, one response per line on stdout. -/
@@ -570,6 +571,21 @@ def handle (j : Json) : Except String Json := do
             ("info", Json.mkObj [("opId", toJson info.opId), ("added", toJson info.added), ("outTensor", toJson info.outTensor)]),
             ("wf", Json.bool (WF.modelOK m')), ("wf_in", Json.bool (WF.modelOK m))])]
         | .error e => errJson e)
+  | "blockwise" =>
+      -- BLOCKWISE weight quantization (QModel/Blockwise.lean). Without "qp": `init_tensor_min_max` + `_get_tensor_quant_params`
+      -- (statistics, parameters, quantized data); with "qp": `uniform_quantize_for_emulated_subchannel` alone on given parameters
+      let w ← getFArr (← j.getObjVal? "w")
+      -- a negative block size is refused by `check_subchannel_config` exactly like 0 (`block_size <= 0`): it is sent to the model as 0
+      let bs := (← j.getObjValAs? Int "block").toNat
+      match (j.getObjVal? "qp").toOption with
+      | some qj =>
+        let qp ← getQParams qj
+        pure (pyToJson iArrToJson (Blockwise.quantizeWith w qp bs))
+      | none =>
+        let bits ← j.getObjValAs? Nat "bits"
+        let sym ← j.getObjValAs? Bool "sym"
+        pure (pyToJson (fun (r : FArr × FArr × QParams × IArr) => Json.mkObj [("min", fArrToJson r.1), ("max", fArrToJson r.2.1),
+            ("qp", qParamsToJson r.2.2.1), ("q", iArrToJson r.2.2.2)]) (Blockwise.run w bs bits sym))
   | "ser_offsets" =>
       let d ← j.getObjValAs? Nat "dummyLen"
       let sizes ← getNatList j "sizes"
